@@ -938,6 +938,7 @@ def _case_alarm(signum, frame):
 def run_program(program, observe=None, timeout=None):
     import signal
     timeout = timeout or int(os.environ.get('VERIF_CASE_TIMEOUT', '120'))
+    A.EXC_STYLE[0] = (program.get('cfg') or {}).get('exc_style', 'str')
     try:
         old = signal.signal(signal.SIGALRM, _case_alarm)
     except ValueError:  # not in the main thread
